@@ -13,6 +13,7 @@ import (
 	"runtime"
 	"sort"
 	"strings"
+	"sync"
 	"sync/atomic"
 	"time"
 )
@@ -75,7 +76,21 @@ type Out struct {
 	// StuckFlag (set by the worker to &simsched.Stuck) and OnStuck (set per case):
 	// see Watch.
 	StuckFlag *int32
-	OnStuck   func()
+	stuckMu   sync.Mutex
+	stuckFn   func()
+}
+
+// SetOnStuck installs the per-case handler that Watch calls when a run is stuck.
+func (o *Out) SetOnStuck(f func()) {
+	o.stuckMu.Lock()
+	o.stuckFn = f
+	o.stuckMu.Unlock()
+}
+
+func (o *Out) onStuck() func() {
+	o.stuckMu.Lock()
+	defer o.stuckMu.Unlock()
+	return o.stuckFn
 }
 
 func OpenOut() (*Out, error) {
@@ -122,7 +137,7 @@ func (o *Out) Watch(limit time.Duration) {
 			time.Sleep(250 * time.Millisecond)
 			if o.StuckFlag != nil && atomic.LoadInt32(o.StuckFlag) != 0 {
 				stuckFor++
-				if h := o.OnStuck; stuckFor >= 12 && h != nil {
+				if h := o.onStuck(); stuckFor >= 12 && h != nil {
 					// three seconds after the step budget ran out the run has still
 					// not returned: an endless loop in the system under test
 					h()
